@@ -26,6 +26,12 @@ func init() {
 	})
 }
 
+type c16Extra struct {
+	When string `json:"when"` // before | beside
+	List []int  `json:"list"`
+	op   *Op
+}
+
 type c16Scenario struct {
 	List      []int           `json:"list"`
 	HasOpt    bool            `json:"has_option"`
@@ -33,6 +39,9 @@ type c16Scenario struct {
 	Random    bool            `json:"random_order"`
 	Durs      []time.Duration `json:"durations"`
 	NilF      bool            `json:"nil_function"`
+	// further PMap calls made with the SAME option object (a caller-owned value PMap must treat as read-only):
+	// before the main call on the caller's thread ("before"), or from a second thread at the same time ("beside")
+	Extra []c16Extra `json:"extra_calls_sharing_the_option,omitempty"`
 
 	h      *Hist
 	probes map[string]int
@@ -87,6 +96,17 @@ func genC16(t *simrt.Tape, tier string) Scenario {
 		sc.Durs = append(sc.Durs, d)
 	}
 	sc.NilF = t.Bool(1, 40)
+	if sc.HasOpt && !sc.NilF && t.Bool(1, 3) {
+		ne := 1 + t.Choose(3)
+		for e := 0; e < ne; e++ {
+			ex := c16Extra{When: []string{"before", "beside"}[t.Choose(2)]}
+			m := []int{0, 0, 1, 2, 5, 9}[t.Choose(6)]
+			for i := 0; i < m; i++ {
+				ex.List = append(ex.List, 1000*(e+1)+i*3)
+			}
+			sc.Extra = append(sc.Extra, ex)
+		}
+	}
 	return sc
 }
 
@@ -124,7 +144,31 @@ func (sc *c16Scenario) Run(s *simrt.Sim) {
 	if sc.HasOpt {
 		opt = &fpgo.PMapOption{FixedPool: sc.FixedPool, RandomOrder: sc.Random}
 	}
+	for i := range sc.Extra {
+		for _, x := range sc.Extra[i].List {
+			durOf[x] = 300 * time.Microsecond
+		}
+	}
+	var beside *simrt.Thread
+	for i := range sc.Extra {
+		if sc.Extra[i].When == "beside" {
+			beside = s.Go("caller2", func() {
+				for i := range sc.Extra {
+					if ex := &sc.Extra[i]; ex.When == "beside" {
+						ex.op = h.Do("caller2", "PMap", ex.List, func() (interface{}, error) { return fpgo.PMap(f, opt, ex.List...), nil })
+						s.Yield()
+					}
+				}
+			})
+			break
+		}
+	}
 	th := s.Go("caller", func() {
+		for i := range sc.Extra {
+			if ex := &sc.Extra[i]; ex.When == "before" {
+				ex.op = h.Do("caller", "PMap", ex.List, func() (interface{}, error) { return fpgo.PMap(f, opt, ex.List...), nil })
+			}
+		}
 		sc.op = h.Do("caller", "PMap", nil, func() (interface{}, error) {
 			if sc.NilF {
 				return fpgo.PMap[int, int](nil, opt, sc.List...), nil
@@ -132,9 +176,10 @@ func (sc *c16Scenario) Run(s *simrt.Sim) {
 			return fpgo.PMap(f, opt, sc.List...), nil
 		})
 	})
-	if !s.WaitUntilTimeout(th.Done, time.Minute) {
+	done := func() bool { return th.Done() && (beside == nil || beside.Done()) }
+	if !s.WaitUntilTimeout(done, time.Minute) {
 		s.SetFair(true)
-		if !s.WaitUntilTimeout(th.Done, 20*time.Minute) {
+		if !s.WaitUntilTimeout(done, 20*time.Minute) {
 			sc.hung = true
 		}
 	}
@@ -154,12 +199,22 @@ func (sc *c16Scenario) Check(res *simrt.Result) []Violation {
 	add := func(clause, fp, detail string) {
 		vs = append(vs, Violation{Clause: clause, Fingerprint: mode + ":" + fp, Detail: detail})
 	}
+	for i := range sc.Extra {
+		if ex := &sc.Extra[i]; ex.op == nil || !ex.op.Returned {
+			sc.hung = true
+		}
+	}
 	if res.Reason != "done" || sc.hung || sc.op == nil || !sc.op.Returned {
 		add("termination", "pmap-did-not-return", fmt.Sprintf("PMap did not return (reason %s) for list %v pool=%d hasopt=%v", res.Reason, sc.List, sc.FixedPool, sc.HasOpt))
 		return dedupe(vs)
 	}
 	if len(vs) > 0 {
 		return dedupe(vs)
+	}
+	for i := range sc.Extra {
+		ex := &sc.Extra[i]
+		sc.probes["option-shared-by-several-calls"]++
+		vs = append(vs, sc.checkCall(mode, "shared-option-call:", ex.List, nil, ex.op)...)
 	}
 	got, _ := sc.op.Val.([]int)
 	if sc.NilF {
@@ -168,11 +223,36 @@ func (sc *c16Scenario) Check(res *simrt.Result) []Violation {
 		}
 		return dedupe(vs)
 	}
-	var want []int
+	vs = append(vs, sc.checkCall(mode, "", sc.List, sc.Durs, sc.op)...)
+	inMain := map[int]bool{}
 	for _, x := range sc.List {
+		inMain[x] = true
+	}
+	for i := range sc.Extra {
+		for _, x := range sc.Extra[i].List {
+			inMain[x] = true
+		}
+	}
+	for x := range sc.begins {
+		if !inMain[x] {
+			add("exactly-once", "applied-to-foreign-value", fmt.Sprintf("f applied to %d which is in no list", x))
+		}
+	}
+	return dedupe(vs)
+}
+
+// checkCall evaluates the per-call clauses for one PMap call (its list, its result, the applications of f to its elements).
+func (sc *c16Scenario) checkCall(mode, tag string, list []int, durs []time.Duration, op *Op) []Violation {
+	var vs []Violation
+	add := func(clause, fp, detail string) {
+		vs = append(vs, Violation{Clause: clause, Fingerprint: mode + ":" + tag + fp, Detail: detail})
+	}
+	got, _ := op.Val.([]int)
+	var want []int
+	for _, x := range list {
 		want = append(want, c16g(x))
 	}
-	ctx := fmt.Sprintf("list=%v pool=%d hasopt=%v random=%v durations=%v result=%v", sc.List, sc.FixedPool, sc.HasOpt, sc.Random, sc.Durs, got)
+	ctx := fmt.Sprintf("list=%v pool=%d hasopt=%v random=%v durations=%v result=%v extra-calls=%+v", list, sc.FixedPool, sc.HasOpt, sc.Random, durs, got, sc.Extra)
 	if mode == "ordered" {
 		if fmt.Sprint(got) != fmt.Sprint(want) && !(len(got) == 0 && len(want) == 0) {
 			add("result", "differs-from-Map", "want "+fmt.Sprint(want)+"; "+ctx)
@@ -193,7 +273,7 @@ func (sc *c16Scenario) Check(res *simrt.Result) []Violation {
 	}
 	var evs []ev
 	var lastEnd uint64
-	for _, x := range sc.List {
+	for _, x := range list {
 		inList[x] = true
 		if n := len(sc.begins[x]); n != 1 {
 			add("exactly-once", fmt.Sprintf("applied-%d-times", min3(n)), fmt.Sprintf("f applied %d times to element %d; %s", n, x, ctx))
@@ -211,12 +291,7 @@ func (sc *c16Scenario) Check(res *simrt.Result) []Violation {
 			add("termination", "returned-before-application-finished", fmt.Sprintf("PMap returned while f(%d) was still running; %s", x, ctx))
 		}
 	}
-	for x := range sc.begins {
-		if !inList[x] {
-			add("exactly-once", "applied-to-foreign-value", fmt.Sprintf("f applied to %d which is not in the list; %s", x, ctx))
-		}
-	}
-	if lastEnd > sc.op.Ret {
+	if lastEnd > op.Ret {
 		add("termination", "returned-before-last-application", "PMap returned before the last application of f finished; "+ctx)
 	}
 	sort.Slice(evs, func(i, j int) bool { return evs[i].at < evs[j].at })
@@ -227,7 +302,7 @@ func (sc *c16Scenario) Check(res *simrt.Result) []Violation {
 			maxRun = run
 		}
 	}
-	limit := len(sc.List)
+	limit := len(list)
 	if sc.HasOpt && sc.FixedPool > 0 && sc.FixedPool < limit {
 		limit = sc.FixedPool
 	}
@@ -240,7 +315,7 @@ func (sc *c16Scenario) Check(res *simrt.Result) []Violation {
 	if maxRun == limit && limit >= 2 {
 		sc.probes["pool-fully-used"]++
 	}
-	return dedupe(vs)
+	return vs
 }
 
 func min3(n int) int {
